@@ -186,7 +186,7 @@ Definition v_gopts (v : val) : gopts :=
    io.EOF), 8 iotest.HalfReader, 9 iotest.OneByteReader (short reads): no Seek method, so ToByteReadSeeker puts the
    discarding wrapper around them whether or not they have ReadByte *)
 Definition src_of_kind (k : N) : srckind :=
-  if (k =? 2) || (5 <=? k) then SrcPlain else SrcSeek.
+  if (k =? 2) || ((5 <=? k) && (k <=? 9)) then SrcPlain else SrcSeek.
 
 Definition run_load (fx : fixes) (input : val) : res (list irec) :=
   let kind := vN (vnth 0 input) in
@@ -213,6 +213,14 @@ Definition v_index_obs (codec : N) (recs : list irec) (qs : list bytes) : val :=
 Definition run_idxgen_with (fx : fixes) (input : val) : val :=
   let codec := vN (vnth 4 input) in
   let qs := map vB (vL (vnth 5 input)) in
+  if 10 <=? vN (vnth 0 input) then
+    (* source kinds 10 (bytes.Reader) / 11 (Read+Seek only): ReadOrGenerateIndex; the listing is
+       the length of the index's serialized form *)
+    match read_or_generate_index (hdr_lookup (vL (vnth 3 input))) codec (v_gopts (vnth 1 input)) (vB (vnth 2 input)) with
+    | Err e => VL [VT "err"; v_err e]
+    | Ok i => VL [VT "ok"; VN (blen (idx_write i)); v_getalls_sorted i qs]
+    end
+  else
   match run_load fx input with
   | Err e => VL [VT "err"; v_err e]
   | Ok recs => v_index_obs codec recs qs
@@ -224,6 +232,7 @@ Definition run_idxgen (input : val) : val := run_idxgen_with repaired input.
 Definition class_of_kind (k : N) : string :=
   if k =? 2 then "plain-reader" else if k =? 4 then "reader-at"
   else if (k =? 5) || (k =? 6) then "plain-bytereader"
+  else if 10 <=? k then "read-or-generate"
   else if 7 <=? k then "plain-short-or-eof-with-data" else "seekable".
 Definition fail3 (clause cls : string) : val := VL [VT "FAIL"; VT clause; VT cls].
 
@@ -389,3 +398,61 @@ Definition prop_idxgenbig (input obs : val) : val :=
   else if negb (val_eqb (vnth 2 obs) (vnth 2 want)) then fail3 "section-not-resolvable-through-the-index" cls
   else if negb (val_eqb (vnth 3 obs) (vnth 3 want)) then fail3 "lookup-differs-from-reference-scan" cls
   else VT "ok".
+
+(* ---- kinds iiser / iiread: InsertionIndex.Marshal / Unmarshal (the CBOR-framed form) ---------------
+   The CBOR decoder is a dependency: its verdict on the stream after the 8-byte count comes from a
+   table recorded by the harness: entries (stream, tok|teof|tother|tPANIC, bytes consumed).
+   iiser:  input = (mode, records, records2, trailer, table)
+           observation = (bytes reported unmarshal bytes2)
+             unmarshal = (tok bytes-left ((cid off) ...)) | (terr class), of bytes ++ trailer
+             bytes2    = Marshal of the insertion index built from records2
+           mode selects the clause of C11 evaluated on the implementation:
+             0 reported length = bytes written   1 round trip   2 different indexes, different bytes
+   iiread: input = (bytes, table), observation = unmarshal as above (correspondence only) *)
+Fixpoint recdec_lookup (tab : list val) (s : bytes) : res bytes :=
+  match tab with
+  | [] => Err EOracleMiss
+  | e :: t =>
+      if bytes_eqb (vB (vnth 0 e)) s then
+        (if is_tag (vnth 1 e) "ok" then Ok (drop (vN (vnth 2 e)) s)
+         else if is_tag (vnth 1 e) "eof" then Err EEof
+         else if is_tag (vnth 1 e) "PANIC" then Err EPanic
+         else Err EOther)
+      else recdec_lookup t s
+  end.
+
+Definition v_ii_list (ii : iidx) : val := VL (map (fun r => VL [VB (r_cid r); VN (r_off r)]) ii).
+
+Definition v_ii_unmarshal (tab : list val) (s : bytes) : val :=
+  match ii_unmarshal (recdec_lookup tab) s with
+  | Err e => VL [VT "err"; v_err e]
+  | Ok (ii, rest) => VL [VT "ok"; VN (blen rest); v_ii_list ii]
+  end.
+
+Definition run_iiser (input : val) : val :=
+  let ii := ii_load (v_recs (vnth 1 input)) [] in
+  let ii2 := ii_load (v_recs (vnth 2 input)) [] in
+  let trailer := vB (vnth 3 input) in
+  VL [VB (ii_marshal ii); VN (ii_marshal_len ii);
+      v_ii_unmarshal (vL (vnth 4 input)) (ii_marshal ii ++ trailer); VB (ii_marshal ii2)].
+
+Definition prop_iiser (input obs : val) : val :=
+  let mode := vN (vnth 0 input) in
+  let ii := ii_load (v_recs (vnth 1 input)) [] in
+  let ii2 := ii_load (v_recs (vnth 2 input)) [] in
+  let trailer := vB (vnth 3 input) in
+  let bs := vB (vnth 0 obs) in
+  let unm := vnth 2 obs in
+  if mode =? 0 then
+    (if vN (vnth 1 obs) =? blen bs then VT "ok"
+     else fail3 "reported-length-differs-from-bytes-written" "insertion-index-length")
+  else if mode =? 1 then
+    (if is_tag (vnth 0 unm) "ok" && (vN (vnth 1 unm) =? blen trailer) && val_eqb (vnth 2 unm) (v_ii_list ii)
+     then VT "ok" else fail3 "roundtrip-read-failed" "insertion-index-roundtrip")
+  else
+    (if val_eqb (v_ii_list ii) (v_ii_list ii2) || negb (bytes_eqb bs (vB (vnth 3 obs))) then VT "ok"
+     else fail3 "different-indexes-serialize-identically" "insertion-index-lossy").
+
+Definition run_iiread (input : val) : val :=
+  v_ii_unmarshal (vL (vnth 1 input)) (vB (vnth 0 input)).
+Definition prop_iiread (input obs : val) : val := VT "ok".
